@@ -18,6 +18,7 @@ def parseCmd (w : String) : Option Cmd :=
   | "run" => some .run
   | "cont" => some .cont
   | "recv" => some .recv
+  | "clr" => some .clear
   | _ =>
     if w.startsWith "add" then (w.drop 3).toString.toNat?.map .add
     else if w.startsWith "del" then (w.drop 3).toString.toNat?.map .del
@@ -49,6 +50,7 @@ def controllerLabel (s : State) : Option String :=
     | .recv :: _ => some "cmd.recv"
     | .add _ :: _ => some "cmd.add"
     | .del _ :: _ => some "cmd.del"
+    | .clear :: _ => some "cmd.del"
     | [] => none
   | .runLoadDone => some "run.load_done"
   | .runStoreDone => some "run.store_done"
